@@ -159,6 +159,86 @@ def _apply(clo, arg):
     return rewrite(clo[3], sub)
 
 
+_LAZY_ARGS = {"then": (1,), "ok_or": (1,), "search": (1, 2, 3), "vec+": tuple(range(64))}
+
+
+def _float(t):
+    """effects of a `{s; v}` in a strictly evaluated position (argument, operand, scrutinee, condition) move to the enclosing
+    sequence: `f(a, {s; v})` is `{s; f(a, v)}`. Conditionally evaluated positions (branches, loop bodies, closure bodies,
+    right operands of && / ||, lazily evaluated arguments) keep their effects."""
+    def lift(n):
+        k = n[0]
+        effs = []
+
+        def take(x, lazy=False):
+            if x[0] == "seq" and not lazy:
+                effs.extend(x[1])
+                return x[2]
+            return x
+        if k == "call":
+            lazy = _LAZY_ARGS.get(n[1], ())
+            r = (k, n[1], [take(a, i in lazy) for i, a in enumerate(n[2])])
+        elif k in ("tup", "array"):
+            r = (k, [take(a) for a in n[1]])
+        elif k == "struct":
+            r = (k, n[1], n[2], {f: take(v) for f, v in n[3].items()})
+        elif k in ("try", "elem", "ret"):
+            inner = take(n[1])
+            if k == "try" and inner[0] == "call" and inner[1] in ("Ok", "Some") and len(inner[2]) == 1:
+                r = inner[2][0]                 # Ok(x)? is x
+                if not effs:
+                    return r
+            else:
+                r = (k, inner)
+        elif k == "field":
+            r = (k, take(n[1]), n[2])
+        elif k == "proj":
+            r = (k, take(n[1]), n[2], n[3])
+        elif k == "op":
+            ops = list(n[2])
+            if ops:
+                ops[0] = take(ops[0])
+                if n[1] not in ("&&", "||"):
+                    ops[1:] = [take(x) for x in ops[1:]]
+            r = (k, n[1], ops)
+        elif k == "if":
+            r = (k, take(n[1]), n[2], n[3])
+        elif k == "match":
+            r = (k, take(n[1]), n[2])
+        elif k == "for":
+            r = (k, take(n[1]), n[2])
+        elif k == "seq":
+            flat = []
+            for x in n[1]:
+                if x[0] == "seq":
+                    flat.extend(x[1])
+                    if x[2] != ("lit", "()"):
+                        flat.append(x[2])
+                else:
+                    flat.append(x)
+            tail = n[2]
+            if tail[0] == "seq":
+                flat.extend(tail[1])
+                tail = tail[2]
+            uniq = []
+            for x in flat:
+                if x not in uniq:          # one statement substituted at several uses is still one statement
+                    uniq.append(x)
+            if not uniq:
+                return tail
+            return ("seq", uniq, tail)
+        else:
+            return None
+        if not effs:
+            return None
+        uniq = []
+        for x in effs:
+            if x not in uniq:
+                uniq.append(x)
+        return lift(("seq", uniq, r)) or ("seq", uniq, r)
+    return rewrite(t, lift)
+
+
 def _not(c):
     return c[2][0] if c[0] == "op" and c[1] == "Not" and len(c[2]) == 1 else ("op", "Not", [c])
 
@@ -264,6 +344,7 @@ class Norm:
         while isinstance(fb, dict) and fb.get("k") in ("DropTemps", "Use"):
             fb = fb["e"]
         self._fn_block = fb if isinstance(fb, dict) else None
+        self._loop_blocks = set()      # bodies of `for` loops: `continue` leaves exactly that block
         self._ret_blocks = {id(fb)} if isinstance(fb, dict) else set()      # blocks whose `return` / `?` leave exactly that block: fn and closure bodies
         self.def_ctx = {}    # local id -> (closure depth, guards) at its `let`
         self.defs = {}       # local id -> binding record
@@ -347,6 +428,10 @@ class Norm:
                 self._bind_pat(pat, ("elem", it), ())
                 # the hidden `iter` binding
                 self._bind_pat(n["arms"][0]["pat"], ("let", n["scrut"]), ())
+                lb = body
+                while isinstance(lb, dict) and lb.get("k") in ("DropTemps", "Use"):
+                    lb = lb["e"]
+                self._loop_blocks.add(id(lb))
                 self._index(n["scrut"], depth, guards)
                 self._index(body, depth, guards + (("for", it, body),))
                 return
@@ -468,11 +553,11 @@ class Norm:
             memo = self._memo
             self._memo = {}
             try:
-                return self._t(e)
+                return _float(self._t(e))
             finally:
                 self.syms = old
                 self._memo = memo
-        return self._t(e)
+        return _float(self._t(e))
 
     def local_term(self, lid):
         if lid in self.syms:
@@ -954,6 +1039,15 @@ class Norm:
             if name in TRANSPARENT and not args:
                 return recv
             if name == "Iterator::collect" and not args and recv[0] == "call" and recv[1] == "Iterator::filter_map" and len(recv[2]) == 2 \
+                    and recv[2][1][0] == "closure" and recv[2][1][2] == 1 and peel_ty(e.get("ty", "")).startswith(("std::result::Result<std::vec::Vec<", "core::result::Result<alloc::vec::Vec<")):
+                # it.filter_map(|x| O.map(|y| R)).collect::<Result<Vec<_>, _>>()  ==  Ok of { for x in it { if let Some(y) = O { push R? } } }
+                it, clo = recv[2]
+                ob = _opt_body(_apply(clo, ("elem", it)), strict=True)
+                if ob is not None:
+                    c, v = ob
+                    v = ("try", v)
+                    return ("call", "Ok", [("call", "vec+", [("for", it, v if c is None else ("if", c, v, ("lit", "()")))])])
+            if name == "Iterator::collect" and not args and recv[0] == "call" and recv[1] == "Iterator::filter_map" and len(recv[2]) == 2 \
                     and recv[2][1][0] == "closure" and recv[2][1][2] == 1 and peel_ty(e.get("ty", "")).startswith(("std::vec::Vec<", "alloc::vec::Vec<")):
                 # it.filter_map(|x| O.map(|y| V)).collect::<Vec<_>>()  ==  for x in it { if let Some(y) = O { push V } }
                 it, clo = recv[2]
@@ -1076,6 +1170,9 @@ class Norm:
                         tail = ("lit", "()")
                 if id(e) in self._ret_blocks and all(v[0] == "ret" and c != ("lit", "match") for c, v in early2):
                     return _unreturn(("early", early2, tail))       # guard clauses of the function body are an if / else chain
+                if id(e) in self._loop_blocks and all(v == ("continue",) and c != ("lit", "match") for c, v in early2):
+                    # `if c { continue }` filters of a loop body are an if / else chain around the rest of the body
+                    return _unreturn(("early", [(c, ("ret", ("lit", "()"))) for c, _v in early2], tail))
                 return ("early", early2, tail)
             return tail
         if k == "Match":
